@@ -6,7 +6,9 @@ crates/astria-sequencer/src/app/verif_c06.rs (two independent Apps A = proposer,
 Script grammar: every op of the sequencer app harness (harness/notes/sequencer_app_harness.md; run
 on A and on B) plus
   ins <txid>...        CheckTx (service::mempool::check_tx) of each tx against A's committed state
-  prepare max=<i64>    prepare_proposal on A at height committed+1 (prints A's builder queue first)
+  prepare max=<i64> [votes=0|1]
+                       prepare_proposal on A at height committed+1 (prints A's builder queue first); with
+                       votes=1 the local last commit carries a signed Commit vote of every validator
   process              process_proposal on B for A's response
   mut <kind> <args>    process_proposal on B for a single-field mutation of A's response:
                        swap i j | drop i | dup i | flip item byte | trunc idx n | swapitems i j |
@@ -25,7 +27,10 @@ NONFATAL_CODE = None   # any non-zero code is the non-fatal execution failure (o
 
 # encoded lengths of the injected data items the model cannot derive from the script (measured on
 # the implementation; a drift shows up as a correspondence failure of the calibration corpus case)
-CONFIG = {"uch_aspen": 104, "uch_blackburn": 104, "eci": 4, "eci_empty": 2}
+# eci: extended commit info item for a local last commit without votes; eci_votes: with the signed votes of
+# the three default validators (`prepare ... votes=1`); eci_empty: the item holding the empty extended commit
+# info of the same round which prepare_proposal falls back to when the other one does not fit
+CONFIG = {"uch_aspen": 104, "uch_blackburn": 104, "eci": 4, "eci_votes": 294, "eci_empty": 4}
 
 PAUPER = "a15"      # never funded, never receives: every fee-paying tx it signs fails at execution
 FILLER = "a14"      # funded, signs only the rollup-data transactions used to overflow the block
@@ -83,8 +88,9 @@ class C06(CaseCheck):
             "activation and the vote-extension enable height), optional committed history, a mempool filled through "
             "CheckTx with transfers, rollup data (1 B .. 200 kB, prefix sums around 256 000), bundles, sudo / "
             "bundleable-sudo / unbundleable-general transactions, dependent nonces, gaps, stale-authority and "
-            "bridge-account transactions; prepare_proposal with max_tx_bytes swept around the prefix sums of the real "
-            "encoded sizes (and 0, 63..72, -1, i64::MAX); process_proposal on an independent App for the honest "
+            "bridge-account transactions; prepare_proposal (local last commit without votes or with the signed votes "
+            "of all validators) with max_tx_bytes swept around the prefix sums of the real encoded sizes, with the "
+            "extended commit info fitting / not fitting (and 0, 63..73, -1, i64::MAX); process_proposal on an independent App for the honest "
             "proposal and 8-14 single-field mutations; optional finalize and a second round; plus a malformed stream. "
             "A case is non-trivial when a proposal with >= 1 transaction was prepared and >= 1 mutation judged; "
             "distinct = distinct script text")
@@ -92,7 +98,7 @@ class C06(CaseCheck):
         "'within the CometBFT byte limit' = the sequencer's own accounting: sum of the raw lengths of all entries of the PrepareProposal response <= max_tx_bytes; CometBFT's protobuf framing is outside the repository",
         "the mempool's builder queue is an input of the model (observed on the implementation before every prepare_proposal; its order is C13's subject)",
         "encoded transaction lengths and the lengths of the injected upgrade-change-hash / extended-commit-info items are inputs of the model (taken from the implementation)",
-        "vote extensions are empty (no oracle votes); ProposalHandler::validate_proposal is exercised only on the empty extended commit info",
+        "vote extensions carry no prices: the extended commit info is either without votes or holds Commit votes with an empty, correctly signed vote extension of every validator; ProposalHandler::validate_proposal is exercised on these two shapes only",
         "the NonFatalExecution branch (IbcRelay after Blackburn) is model-only: the app harness has no IbcRelay action",
         "ed25519 / sha256 / protobuf are the real ones on the implementation side and abstract (decodable, signed flags; commitments as preimages) in the model",
     ]
@@ -146,12 +152,12 @@ class C06(CaseCheck):
         for l in proto["lines"]:
             if isinstance(l, tuple):
                 _, spec = l
-                out.append("prepare max=%d" % self.choose_max(rng, spec))
+                out.append("prepare max=%d%s" % (self.choose_max(rng, spec), " votes=1" if spec.get("votes") else ""))
             else:
                 out.append(l)
         return out
 
-    def items_len(self, aspen, blackburn, height):
+    def items_len(self, aspen, blackburn, height, votes=False):
         typed = aspen != 0 and height >= aspen
         n = 68 if typed else 64
         if aspen != 0 and height == aspen:
@@ -159,17 +165,24 @@ class C06(CaseCheck):
         elif blackburn != 0 and height == blackburn:
             n += CONFIG["uch_blackburn"]
         if aspen != 0 and height >= aspen + 2:
-            n += CONFIG["eci"]
+            n += CONFIG["eci_votes"] if votes else CONFIG["eci"]
         return n
 
     def choose_max(self, rng, spec):
         """spec: dict(order=[tx ids in the expected queue order], aspen, blackburn, height, mode)"""
-        base = self.items_len(spec["aspen"], spec["blackburn"], spec["height"])
+        votes = bool(spec.get("votes"))
+        base = self.items_len(spec["aspen"], spec["blackburn"], spec["height"], votes)
         lens = [self.lens.get(i, (230, "?"))[0] for i in spec["order"]]
         total = base + sum(lens)
-        mode = spec.get("mode") or rng.choice(["all", "all", "all", "prefix", "prefix", "prefix", "prefix", "tiny", "huge"])
+        mode = spec.get("mode") or rng.choice(["all", "all", "all", "prefix", "prefix", "prefix", "prefix", "tiny", "huge"]
+                                              + (["fallback"] * 5 if votes else []))
         if isinstance(mode, int):
             return mode
+        if mode == "fallback":
+            # the extended commit info with the votes does not fit, the empty one (mostly) does
+            low = base - CONFIG["eci_votes"] + CONFIG["eci_empty"]
+            k = rng.randint(0, len(lens))
+            return low + sum(lens[:k]) + rng.choice([-1, 0, 0, 0, 1, 2, 17])
         if mode == "all":
             return total + rng.choice([0, 0, 1, 5, 1000, 10 ** 6])
         if mode == "prefix":
@@ -189,12 +202,22 @@ class C06(CaseCheck):
                   "process", "mut flip 0 7", "mut flip 1 1", "mut swapitems 0 1", "mut dropitem 0", "mut trunc 1 5",
                   "finalize"]
         out.append({"lines": l})
-        # the extended commit info (4 bytes when there are no votes) just fits / does not fit: 72 is the honest
-        # minimum at height 5; 71 and 70 make prepare_proposal fall back to the empty item (F10b); 69 is an error
+        # the extended commit info just fits / does not fit.  Without votes it is the same 4 bytes as the empty one
+        # prepare_proposal falls back to: 72 is the minimum at height 5, below that prepare_proposal fails.  With
+        # votes: 68 + eci_votes is the minimum for the votes; from there down to 72 the block carries the empty
+        # extended commit info instead and must be accepted (regression for F10b, repaired by a321bb4)
         l = ["case fixed-eci-fallback", "genesis", "advance 4"]
         for mx in (72, 71, 70, 69, 68, 67):
             l += [("PREPARE", {"order": [], "aspen": 1, "blackburn": 3, "height": 5, "mode": mx}), "process",
                   "mut flip 0 3", "mut dropitem 2"]
+        full = 68 + CONFIG["eci_votes"]
+        for mx in (full + 1, full, full - 1, 73, 72, 71):
+            l += [("PREPARE", {"order": [], "aspen": 1, "blackburn": 3, "height": 5, "mode": mx, "votes": True}),
+                  "process", "mut flip 0 3", "mut dropitem 2", "mut trunc 2 1"]
+        l += [("PREPARE", {"order": [], "aspen": 1, "blackburn": 3, "height": 5, "mode": 72, "votes": True}),
+              "process", "finalize",
+              ("PREPARE", {"order": [], "aspen": 1, "blackburn": 3, "height": 6, "mode": full, "votes": True}),
+              "process", "finalize"]
         out.append({"lines": l})
         l = ["case fixed-legacy", "genesis aspen=0 blackburn=0", "advance 2",
              ("PREPARE", {"order": [], "aspen": 0, "blackburn": 0, "height": 3, "mode": "all"}),
@@ -328,8 +351,9 @@ class C06(CaseCheck):
                 ids = ids_of(kv["ids"])
                 mx = int(kv["max"])
                 lens = [int(x) for x in ids_of(kv.get("itemlens", "-"))]
+                # recognisable only when the proposer had votes to include (otherwise both items are the same bytes)
                 honest = {"ids": ids, "max": mx, "accepted": None, "nitems": int(kv["nitems"]),
-                          "fallback": len(lens) >= 3 and lens[-1] == CONFIG["eci_empty"]}
+                          "fallback": kv.get("votes") == "1" and len(lens) >= 3 and lens[-1] != CONFIG["eci_votes"]}
                 if "tailmismatch" in t:
                     fails.append("prepare: response transactions differ from the executed ones: %r" % l)
                 if int(kv["bytes"]) > mx:
@@ -426,10 +450,6 @@ class C06(CaseCheck):
             return ("F10 process_proposal rejects an honest prepare_proposal block whose transaction passes its "
                     "construction-time check only after an earlier transaction of the same block "
                     "(construct_checked_txs runs against the block-start state; app/mod.rs:631)")
-        # F10b: the empty extended-commit-info item prepare_proposal falls back to does not parse.
-        if what.startswith("honest proposal rejected: verdict=reject=parse noncons=- ecifallback=1 "):
-            return ("F10b process_proposal cannot parse the empty ExtendedCommitInfo item that prepare_proposal "
-                    "substitutes when the extended commit info does not fit below max_tx_bytes (app/mod.rs:437-451)")
         return None
 
     def nontrivial(self, case, il):
@@ -452,6 +472,11 @@ class C06(CaseCheck):
                             c["bytes_exactly_max"] += 1
                         if kv["removed"] != "-":
                             c["prepare_removed_failing"] += 1
+                        if "votes" in kv:
+                            lens = ids_of(kv.get("itemlens", "-"))
+                            if kv["votes"] == "1" and len(lens) >= 3:
+                                c["eci_with_votes" if int(lens[-1]) == CONFIG["eci_votes"] else
+                                  "eci_fallback_empty" if int(lens[-1]) == CONFIG["eci_empty"] else "eci_other"] += 1
                 elif t[0] == "process" and len(t) > 1:
                     c["honest_" + t[1].replace("=", "_")] += 1
                 elif t[0] == "mut" and "verdict" in kv:
@@ -521,9 +546,9 @@ class _Gen:
             return self.transfer(rng) + " ; " + self.rollup(rng)
         return self.rollup(rng) + " ; " + self.rollup(rng) + " ; " + self.transfer(rng)
 
-    def spec(self, order, mode=None):
+    def spec(self, order, mode=None, votes=False):
         return ("PREPARE", {"order": list(order), "aspen": self.aspen, "blackburn": self.blackburn,
-                            "height": self.height + 1, "mode": mode})
+                            "height": self.height + 1, "mode": mode, "votes": votes})
 
     def queue_order(self, entries):
         """expected builder queue: group descending, nonce difference, insertion order"""
@@ -711,11 +736,14 @@ class _Gen:
         extra = [self.tx("a5", self.random_action(rng, "a5"))[0] for _ in range(2)]
         self.nonce["a5"] = n5
         mode = None
+        # vote extensions are enabled from the second block after Aspen; there the local last commit carries votes
+        # in 2 of 5 proposals
+        votes = self.aspen != 0 and self.height + 1 >= self.aspen + 2 and rng.random() < 0.4
         if style == "bytes":
-            mode = rng.choice(["prefix", "prefix", "prefix", "all", "tiny"])
+            mode = rng.choice(["prefix", "prefix", "prefix", "all", "tiny"] + (["fallback"] * 4 if votes else []))
         elif style in ("seq", "f10"):
             mode = "all"
-        self.lines.append(self.spec(expected, mode))
+        self.lines.append(self.spec(expected, mode, votes))
         self.emit("process")
         for m in self.mutations(rng, extra + pool):
             self.emit(m)
